@@ -101,7 +101,9 @@ ASSUMPTIONS = [
     'lost-wakeup / circular-wait are reported only for executions without an '
     'external deletion',
     'alphabet: one instance, containers g1/g3 on host A, g2 on host B, g4 on '
-    'host C, one endpoint + one identity each (3 nodes per container); '
+    'host C (host names node1 / node10 / node100: each a proper string '
+    'prefix of the next, also in the sequential sub-checks), one endpoint + '
+    'one identity each (3 nodes per container); '
     'programs P1..P5 of mc.c17_ilv.CONFIGS',
     'EndpointPresence / _unschedule are checked sequentially only; their '
     'get-then-delete window is outside the statement',
